@@ -1,5 +1,5 @@
 use const_format::formatcp;
-use itertools::{Itertools as _, Position};
+use itertools::Itertools as _;
 #[cfg(feature = "miette")]
 use miette::Diagnostic;
 use regex::{Error as RegexError, Regex};
@@ -144,7 +144,7 @@ where
 {
     let mut pattern = String::new();
     pattern.push('^');
-    encode(Grouping::Capture, None, &mut pattern, tree);
+    encode(Grouping::Capture, (true, true), &mut pattern, tree);
     pattern.push('$');
     Regex::new(&pattern).map_err(|error| match error {
         RegexError::CompiledTooBig(_) => CompileError {
@@ -161,13 +161,13 @@ where
 #[allow(clippy::double_parens)]
 fn encode<'t, T>(
     grouping: Grouping,
-    superposition: Option<Position>,
+    (is_starting, is_ending): (bool, bool),
     pattern: &mut String,
     tree: impl Borrow<T>,
 ) where
     T: ConcatenationTree<'t>,
 {
-    use itertools::Position::{First, Last, Middle, Only};
+    use itertools::Position::{First, Last, Only};
 
     use crate::token::Archetype::{Character, Range};
     use crate::token::BranchKind::{Alternation, Concatenation, Repetition};
@@ -183,8 +183,12 @@ fn encode<'t, T>(
 
     // TODO: Use `Grouping` everywhere a group is encoded.
     for (position, token) in tree.borrow().concatenation().iter().with_position() {
+        // A token begins (ends) the expression only if it and all of its ancestors are the first
+        // (last) token in their concatenations.
+        let is_starting = is_starting && matches!(position, First | Only);
+        let is_ending = is_ending && matches!(position, Last | Only);
         match token.topology() {
-            TokenTopology::Leaf(leaf) => match (position, leaf) {
+            TokenTopology::Leaf(leaf) => match ((is_starting, is_ending), leaf) {
                 (_, Literal(literal)) => {
                     // TODO: Only encode changes to casing flags.
                     // TODO: Should Unicode support also be toggled by casing flags?
@@ -247,11 +251,8 @@ fn encode<'t, T>(
                 (_, Wildcard(One)) => grouping.push_str(pattern, nsepexpr!("{0}")),
                 (_, Wildcard(ZeroOrMore(Eager))) => grouping.push_str(pattern, nsepexpr!("{0}*")),
                 (_, Wildcard(ZeroOrMore(Lazy))) => grouping.push_str(pattern, nsepexpr!("{0}*?")),
-                (First, Wildcard(Tree { has_root })) => {
-                    if let Some(Middle | Last) = superposition {
-                        encode_intermediate_tree(grouping, pattern);
-                    }
-                    else if *has_root {
+                ((true, false), Wildcard(Tree { has_root })) => {
+                    if *has_root {
                         grouping.push_str(pattern, sepexpr!("{0}(?s:.*){0}?"));
                     }
                     else {
@@ -260,20 +261,15 @@ fn encode<'t, T>(
                         pattern.push(')');
                     }
                 },
-                (Middle, Wildcard(Tree { .. })) => {
+                ((false, false), Wildcard(Tree { .. })) => {
                     encode_intermediate_tree(grouping, pattern);
                 },
-                (Last, Wildcard(Tree { .. })) => {
-                    if let Some(First | Middle) = superposition {
-                        encode_intermediate_tree(grouping, pattern);
-                    }
-                    else {
-                        pattern.push_str(sepexpr!("(?:{0}?|{0}"));
-                        grouping.push_str(pattern, "(?s:.*)");
-                        pattern.push(')');
-                    }
+                ((false, true), Wildcard(Tree { .. })) => {
+                    pattern.push_str(sepexpr!("(?:{0}?|{0}"));
+                    grouping.push_str(pattern, "(?s:.*)");
+                    pattern.push(')');
                 },
-                (Only, Wildcard(Tree { .. })) => grouping.push_str(pattern, "(?s:.*)"),
+                ((true, true), Wildcard(Tree { .. })) => grouping.push_str(pattern, "(?s:.*)"),
             },
             TokenTopology::Branch(branch) => match branch {
                 Alternation(alternation) => {
@@ -285,7 +281,7 @@ fn encode<'t, T>(
                             pattern.push_str("(?:");
                             encode::<Token<_>>(
                                 Grouping::NonCapture,
-                                superposition.or(Some(position)),
+                                (is_starting, is_ending),
                                 &mut pattern,
                                 token,
                             );
@@ -303,7 +299,7 @@ fn encode<'t, T>(
                         pattern.push_str("(?:");
                         encode::<Token<_>>(
                             Grouping::NonCapture,
-                            superposition.or(Some(position)),
+                            (is_starting, is_ending),
                             &mut pattern,
                             repetition.token(),
                         );
